@@ -16,6 +16,25 @@ pub enum Expect {
     Any,
 }
 
+impl Expect {
+    pub fn encode(&self) -> String {
+        match self {
+            Expect::Accept => "A".into(),
+            Expect::Refuse(None) => "R:*".into(),
+            Expect::Refuse(Some(k)) => format!("R:{}", k),
+            Expect::Any => "-".into(),
+        }
+    }
+    pub fn decode(s: &str) -> Expect {
+        match s {
+            "A" => Expect::Accept,
+            "-" => Expect::Any,
+            "R:*" => Expect::Refuse(None),
+            _ => Expect::Refuse(crate::case::KINDS.iter().find(|k| Some(**k) == s.strip_prefix("R:")).copied()),
+        }
+    }
+}
+
 pub struct Job {
     pub case: Case,
     pub expect: Expect,
@@ -243,6 +262,14 @@ pub fn run_jobs(ctx: &mut Ctx, op: &'static str, jobs: Vec<Job>) -> Vec<Done> {
                     clause: format!("the key provider was not asked for the access key / session token the request is signed with — {}", job.case.describe()),
                 });
             }
+        }
+        if (bad || bad_calls || il != ml) && job.class != "corpus" && job.class != "path-literal-plus" && ctx.rep.corpus_candidates.len() < 40 {
+            ctx.rep.corpus_candidates.push(format!(
+                "V {} {} {}",
+                job.expect.encode(),
+                job.expect_calls.map(|n| n.to_string()).unwrap_or_else(|| "-".into()),
+                job.case.to_line()
+            ));
         }
         if bad || bad_calls {
             ctx.rep.fail(Failure {
@@ -627,6 +654,35 @@ pub fn c04(ctx: &mut Ctx) {
             jobs.push(j);
             if ctx.rep.samples.len() < 4 && off.abs() == 900 * 1_000_000_000 {
                 ctx.rep.sample(format!("server {}-{:02}-{:02}T{:02}:{:02}:{:02}.{:09} request offset {} ns rendered \"{}\"", y, mo, d, h, mi, s, ns, off, render_time(t, style)));
+            }
+        }
+        run_jobs(ctx, "VALIDATE", std::mem::take(&mut jobs));
+    }
+    // server clocks at and near the limits of what chrono can represent (the `checked_*(..).unwrap_or(now)`
+    // fallbacks of prevalidate) and just outside the years a request timestamp can name
+    {
+        use chrono::{DateTime, Utc};
+        let lo = DateTime::<Utc>::MIN_UTC;
+        let hi = DateTime::<Utc>::MAX_UTC;
+        let y0 = rs::days_from_civil(0, 1, 1) * 86400;
+        let y10k = rs::days_from_civil(10000, 1, 1) * 86400;
+        let clocks: Vec<(i64, u32)> = vec![
+            (lo.timestamp(), 0), (lo.timestamp() + 899, 0), (lo.timestamp() + 900, 0), (lo.timestamp() + 901, 5),
+            (hi.timestamp(), 999_999_999), (hi.timestamp() - 899, 0), (hi.timestamp() - 900, 0), (hi.timestamp() - 901, 0),
+            (y0 - 300, 0), (y0 + 300, 0), (y0 - 901, 0), (y10k - 300, 0), (y10k + 300, 0), (y10k + 899, 0), (y10k + 900, 0), (y10k + 901, 0),
+        ];
+        for now in clocks {
+            for t_secs in [y0, y0 + 600, y10k - 1, y10k - 600, y10k - 899] {
+                for carrier in [Carrier::Header, Carrier::Query] {
+                    let t = t_secs as i128 * 1_000_000_000;
+                    let l = simple_logical(carrier, t);
+                    let sg = sign_and_spell(&l, &mut rng, &Spelling::plain(), now);
+                    let diff = (now.0 as i128 * 1_000_000_000 + now.1 as i128) - t;
+                    // near chrono's own limits the window degenerates (documented fallback): correspondence only
+                    let near_limit = now.0 < lo.timestamp() + 900 || now.0 > hi.timestamp() - 900;
+                    let expect = if near_limit { Expect::Any } else if diff.abs() <= 900_000_000_000 { Expect::Accept } else { Expect::Refuse(Some("SignatureDoesNotMatch")) };
+                    jobs.push(job(sg.case, expect, "c04-extreme-clock", "C04: accept iff |t - now| <= 15 min, also for server clocks outside years 1-9999"));
+                }
             }
         }
         run_jobs(ctx, "VALIDATE", std::mem::take(&mut jobs));
